@@ -11,7 +11,8 @@ PROPERTY = "C20"
 RULE = ("power-level contents: (ban, kick, invite) thresholds from 12 combinations of {absent, 0, "
         "30, 50}, actor level from {-1, 0, 1, 29, 30, 31, 49, 50, 51, 100} given through a users "
         "entry or through users_default, target level below / equal / above the actor, events "
-        "overrides for message and state types present / absent, state_default / events_default "
+        "overrides absent / for some message and state types / for every type asked about "
+        "(incl. m.room.third_party_invite and m.room.member) within 1 of the actor's level, state_default / events_default "
         "present / absent, notifications.room, integer vs string / padded-string encodings "
         "(versions 3-9 only), x room versions 3-11. For each content the RoomPowerLevels helpers' "
         "answers are compared with ruma_state_res::auth_check on the corresponding minimal event "
@@ -44,12 +45,14 @@ def floors(tier):
 
 
 def contents(tier):
+    cell = 0
     for (ban, kick, invite) in THRESHOLDS:
         for a in LEVELS:
             for trel in (-1, 0, 1):
                 for via_default in (False, True):
-                    for overrides in (False, True):
+                    for overrides in (False, True, "all"):
                         for encoding in ("int", "str", "pad"):
+                            cell += 1
                             c = {}
                             for k, val in (("ban", ban), ("kick", kick), ("invite", invite)):
                                 if val is not None:
@@ -66,6 +69,15 @@ def contents(tier):
                                 c["events_default"] = 1
                                 c["notifications"] = {"room": 30}
                                 c["redact"] = 30
+                            if overrides == "all":
+                                # an explicit events entry for every type asked about (also the types
+                                # with a rule of their own), just below / at / above the actor's level
+                                types = MSG_TYPES + STATE_TYPES + ["m.room.third_party_invite", "m.room.member"]
+                                c["events"] = {ty: a + (-1, 0, 1)[(i + cell) % 3] for i, ty in enumerate(types)}
+                                if cell % 2:
+                                    c["state_default"] = a + 1
+                                    c["events_default"] = a + 1
+                                c["notifications"] = {"room": a + (-1, 0, 1)[cell % 3]}
                             yield c, encoding
 
 
